@@ -69,7 +69,7 @@ type c20Task struct {
 	err      error
 }
 
-func (t *c20Task) String() string          { return t.name }
+func (t *c20Task) String() string         { return t.name }
 func (t *c20Task) Ready() <-chan struct{} { return t.readyC }
 
 func (t *c20Task) Run(ctx context.Context) error {
